@@ -3,6 +3,8 @@
 package main
 
 import (
+	"reflect"
+	"unsafe"
 	"encoding/base64"
 	"encoding/json"
 	"fmt"
@@ -44,6 +46,8 @@ type c06Req struct {
 	D        time.Duration `json:"d,omitempty"`
 	// PWOf (authenticate): present the password of this user instead of the target's own
 	PWOf string `json:"pw_of,omitempty"`
+	// Method: the HTTP method of the management request ("" = POST)
+	Method string `json:"method,omitempty"`
 }
 
 var c06Creds = []string{"none", "garbage", "expired-aged", "expired-sealed", "future-sealed", "tampered", "other-instance", "user-token", "admin-token", "own-token",
@@ -62,6 +66,7 @@ func genC06(t *rapid.T) []c06Req {
 			Shape: rapid.SampledFrom(c06Shapes).Draw(t, "shape"), Admin: rapid.Bool().Draw(t, "admin"), RightPW: rapid.IntRange(0, 2).Draw(t, "rightpw") != 0}
 		tag++
 		r.NewPW = fmt.Sprintf("new-password-%d", tag)
+		r.Method = rapid.SampledFrom([]string{"", "", "", "", "", "", "GET", "PUT", "DELETE", "PATCH", "OPTIONS", "HEAD", "post", "PROPFIND"}).Draw(t, "method")
 		switch ep {
 		case "authenticate", "basic-auth":
 			r.Target = r.Actor
@@ -224,13 +229,18 @@ func runC06(reqs []c06Req) string {
 		return "VERIF-INFRA handler"
 	}
 	hh, _ := mux.Handler(httptest.NewRequest("POST", "/api/list", nil))
-	fac := hh.(webHandler).sessions
+	// the session factory behind the handler, found by field name: the handler may be wrapped in another named type
+	fac, okFac := factoryOf(hh, webHandler{}.sessions)
+	if !okFac {
+		return "VERIF-INFRA the handler of /api/list holds no session factory the harness can find"
+	}
 	m := &c06Model{users: map[string]mrec{}}
 	for _, u := range c06Users {
 		m.users[u.Name] = mrec{u.PW, u.Admin}
 	}
+	method := "POST"
 	do := func(mx *http.ServeMux, path, body string, hdr func(*http.Request)) *httptest.ResponseRecorder {
-		req := httptest.NewRequest("POST", path, strings.NewReader(body))
+		req := httptest.NewRequest(method, path, strings.NewReader(body))
 		if hdr != nil {
 			hdr(req)
 		}
@@ -605,7 +615,14 @@ func runC06(reqs []c06Req) string {
 			}
 		}
 		body, eff, class := shapeBody(r.Shape, fs, i)
+		if r.Method != "" {
+			// any other method: the request need not be served, but a non-success answer means nothing happened and a success
+			// answer means it was authorised
+			method = r.Method
+			vlib.Class("management-request-with-method-other-than-POST")
+		}
 		rec := do(mux, path, body, nil)
+		method = "POST"
 		after := vlib.TakeSnap(e.root)
 
 		// ---- the reference authorisation decision on the effective request
@@ -678,7 +695,7 @@ func runC06(reqs []c06Req) string {
 		if rec.Code == 200 && !want200 {
 			return fmt.Sprintf("VIOLATION C06: %s returned 200 but the request is not authorised/effective by the reference table (authorised=%v); %s\nbody=%s\nresponse=%s", path, authorised, ctx, body, resp)
 		}
-		if rec.Code != 200 && want200 && class == "strict" {
+		if rec.Code != 200 && want200 && class == "strict" && r.Method == "" {
 			return fmt.Sprintf("VIOLATION C06: %s refused (%d %s) a request the reference table authorises; %s\nbody=%s", path, rec.Code, resp, ctx, body)
 		}
 		if rec.Code != 200 {
@@ -805,4 +822,25 @@ func TestC06Table(t *testing.T) {
 	vlib.SetExtra("authorisation_table_cells_enumerated", int64(n))
 	vlib.Class("authorisation-table-exhaustive")
 	vlib.Sample(map[string]any{"kind": "exhaustive table", "endpoints": endpoints, "credential_kinds": c06Creds, "targets": targets, "actors": actors, "shapes": []string{"exact", "dup-keys", "missing-field"}, "cells": n})
+}
+
+
+// factoryOf finds a field named "sessions" of the sample's type in a handler value (a struct, or a named type over one).
+func factoryOf[T any](h any, _ T) (T, bool) {
+	var zero T
+	v := reflect.ValueOf(h)
+	for v.IsValid() && (v.Kind() == reflect.Pointer || v.Kind() == reflect.Interface) {
+		v = v.Elem()
+	}
+	if !v.IsValid() || v.Kind() != reflect.Struct {
+		return zero, false
+	}
+	nv := reflect.New(v.Type()).Elem()
+	nv.Set(v)
+	f := nv.FieldByName("sessions")
+	if !f.IsValid() {
+		return zero, false
+	}
+	x, ok := reflect.NewAt(f.Type(), unsafe.Pointer(f.UnsafeAddr())).Elem().Interface().(T)
+	return x, ok
 }
